@@ -709,6 +709,17 @@ def _sources_through_cache(func: ast.AST, name: str) -> List[ast.AST]:
     return out
 
 
+def _names_holding(func: ast.AST, value: ast.AST) -> Set[str]:
+    """ the locals a given value expression is assigned to """
+    out: Set[str] = set()
+    for node in walk_local(func):
+        if isinstance(node, (ast.Assign, ast.AnnAssign)) and getattr(node, "value", None) is value:
+            for target in (node.targets if isinstance(node, ast.Assign) else [node.target]):
+                if isinstance(target, ast.Name):
+                    out.add(target.id)
+    return out
+
+
 def r01_9(ctx: Ctx) -> None:
     """ the evaluation context holds *every* gene in range, hits or not """
     func = ctx.fn(CP, "apply_cluster_rules", inline=True)
@@ -739,8 +750,9 @@ def r01_9(ctx: Ctx) -> None:
                              f"{{... for {txt(gen.target)} in {txt(gen.iter)}" + (" if " + txt(gen.ifs[0]) if gen.ifs else "") + "}"))
         elif isinstance(src, ast.Dict) and not src.keys:
             # filled in a loop: the store must execute on every iteration of a loop over the lookup result
+            filled = _names_holding(func, src) | {name}
             stores = [n for n in walk_local(func) if isinstance(n, ast.Assign) and isinstance(n.targets[0], ast.Subscript)
-                      and txt(n.targets[0].value) == name]
+                      and txt(n.targets[0].value) in filled]
             good = bool(stores)
             forms = []
             for store in stores:
@@ -767,8 +779,11 @@ def r01_9(ctx: Ctx) -> None:
     res = arg_of(detects[0], 2, "results_by_id")
     if isinstance(res, ast.Name):
         srcs = _sources_through_cache(func, res.id)
+        held = {res.id}
+        for v in srcs:
+            held |= _names_holding(func, v)
         ok = bool(srcs) and all(isinstance(v, ast.DictComp) and "results_by_id" in txt(v) for v in srcs) or \
-            any(isinstance(n, ast.Assign) and isinstance(n.targets[0], ast.Subscript) and txt(n.targets[0].value) == res.id
+            any(isinstance(n, ast.Assign) and isinstance(n.targets[0], ast.Subscript) and txt(n.targets[0].value) in held
                 and "results_by_id" in txt(n.value) for n in walk_local(func))
         ctx.ob("R01.9", CP, detects[0], "apply_cluster_rules", "results restricted to genes in range", ok,
                "the hits handed to the rule evaluation are those of the genes in range", form="; ".join(txt(v)[:80] for v in srcs))
